@@ -15,6 +15,8 @@ IN / NOT IN (subquery), in targets (before / after other targets) and in WHERE, 
 Text sweep: inner queries with expression-named and duplicate-named outputs (names depend on the
   source text, so these statements are parsed).
 """
+import datetime
+import decimal
 import itertools
 
 import beanquery
@@ -303,9 +305,19 @@ def in_statements():
         'nested-in': select([(v, None)], from_='t', where=A.In(v, select([(j, None)], from_='u'))),
         'str': select([(s, None)], from_='u'),
     }
+    # left operands of other types than the usual int / str: membership needs no comparison operator for the type
+    lefts = {
+        'bool': (A.Greater(v, C(1)), select([(A.Greater(j, C(1)), 'b')], from_='u')),
+        'bool-col-expr': (A.IsNull(k), select([(A.IsNull(s), 'b')], from_='u')),
+        'decimal-in-int': (A.Mul(v, C(decimal.Decimal('1.0'))), select([(j, None)], from_='u')),
+        'str-in-int': (k, select([(j, None)], from_='u')),
+        'int-in-str': (v, select([(s, None)], from_='u')),
+        'null-literal': (C(None), select([(j, None)], from_='u')),
+        'date': (F('date_add', C(datetime.date(2020, 1, 1)), v), select([(F('date_add', C(datetime.date(2020, 1, 1)), j), 'd')], from_='u')),
+    }
     out = []
-    for sn, sub in subs.items():
-        x = k if sn == 'str' else v
+    for sn, sub in list(subs.items()) + [(n, sb) for n, (_, sb) in lefts.items()]:
+        x = lefts[sn][0] if sn in lefts else (k if sn == 'str' else v)
         for op in (A.In, A.NotIn):
             out.append((f'{sn}|{op.__name__}|target-last', select([(id_, None), (x, 'x'), (op(x, sub), 'm')], from_='t')))
             out.append((f'{sn}|{op.__name__}|target-first', select([(op(x, sub), 'm'), (id_, None), (k, None)], from_='t')))
